@@ -32,6 +32,8 @@ PURE_BUILTINS = {'len': len, 'list': list, 'tuple': tuple, 'sorted': sorted, 'zi
                  'enumerate': lambda x, start=0: list(enumerate(x, start)), 'range': lambda *a: list(range(*a)), 'min': min,
                  'max': max, 'sum': sum, 'int': int, 'float': float, 'bool': bool, 'set': set, 'dict': dict, 'reversed': lambda x: list(reversed(x)),
                  'str': str}
+DTYPE_NAMES = ('int_', 'intp', 'int8', 'int16', 'int32', 'int64', 'uint8', 'uint16', 'uint32', 'uint64', 'float16', 'float32', 'float64',
+               'bool_', 'double', 'single')
 ARRAY_CTORS = ('array', 'asarray')     # np.array(list) is the list for our purposes
 MAX_STEPS = 20000
 
@@ -94,6 +96,8 @@ class Folder:
                 return float('nan')
             if e.attr == 'inf':
                 return float('inf')
+            if e.value.id != 'math' and e.attr in DTYPE_NAMES:
+                return ('dtype', e.attr)
         if e.attr in ('shape', 'size', 'ndim') and not (isinstance(e.value, ast.Name) and e.value.id in ('np', 'numpy', 'math')):
             v = self.ev(e.value, env)
             if isinstance(v, (list, tuple)) and all(isinstance(x, (int, float)) for x in v):
@@ -222,6 +226,12 @@ class Folder:
         if isinstance(fn, ast.Attribute) and fn.attr in ARRAY_CTORS and isinstance(fn.value, ast.Name) and fn.value.id in ('np', 'numpy') \
                 and args:
             return args[0]
+        if isinstance(fn, ast.Attribute) and fn.attr in ('empty', 'zeros', 'ones', 'full') and isinstance(fn.value, ast.Name) and \
+                fn.value.id in ('np', 'numpy') and fn.value.id not in env and args and set(kwargs) <= {'dtype'}:
+            # a fresh 1-D vector of a folded length (the cells of np.empty are unset: None folds with nothing)
+            n_ = args[0][0] if isinstance(args[0], tuple) and len(args[0]) == 1 else args[0]
+            if isinstance(n_, int) and not isinstance(n_, bool) and 0 <= n_ <= 4096 and len(args) == (2 if fn.attr == 'full' else 1):
+                return [{'empty': None, 'zeros': 0, 'ones': 1}.get(fn.attr, args[-1])] * n_
         if isinstance(fn, ast.Attribute) and fn.attr in ('argmin', 'argmax') and isinstance(fn.value, ast.Name) and fn.value.id in ('np', 'numpy') \
                 and len(args) == 1 and not kwargs and isinstance(args[0], (list, tuple)) and args[0]:
             # first position of the extreme value (NumPy's tie rule)
